@@ -7,7 +7,8 @@ Unknown(reason); callers must treat Unknown in a needed cell as a report, never 
 Nothing of rooc is executed: the inputs are HIR trees from the facts file.
 """
 import re
-from facts import norm, base_ty
+import os
+from facts import norm, base_ty, short
 
 
 class Unknown:
@@ -294,6 +295,17 @@ def split_template(t):
     return out
 
 
+def _plain(v):
+    """ropes made of literal text only compare as strings, also inside Option/Result/tuples"""
+    if isinstance(v, Rope) and all(isinstance(x, str) for x in v.pieces):
+        return v.text()
+    if isinstance(v, Var) and (v.args or v.fields):
+        return Var(v.path, [_plain(x) for x in v.args], {k: _plain(x) for k, x in v.fields.items()})
+    if isinstance(v, tuple):
+        return tuple(_plain(x) for x in v)
+    return v
+
+
 def strip_node(n):
     while True:
         k = n.get("k")
@@ -313,6 +325,8 @@ class Interp:
         self.max_depth = max_depth
         self.depth = 0
         self.trace = []
+        self.fn_stack = []
+        self.trace_unknown = bool(os.environ.get("INTERP_TRACE"))
         self.deref_impls = {}
         for imp in facts.items["impls"]:
             if imp.get("trait") in ("std::ops::Deref", "core::ops::Deref"):
@@ -358,6 +372,7 @@ class Interp:
         if self.depth > self.max_depth:
             return Unknown("depth limit in " + path)
         self.depth += 1
+        self.fn_stack.append(f["path"])
         try:
             env = {}
             params = f.get("params", [])
@@ -372,6 +387,7 @@ class Interp:
                 return r.v
         finally:
             self.depth -= 1
+            self.fn_stack.pop()
 
     def deref(self, v):
         """one overloaded-deref step on a struct value, or None"""
@@ -555,6 +571,27 @@ class Interp:
             return False
         if is_unknown(v):
             return None
+        if k == "PSlice":
+            if not isinstance(v, ListV):
+                return None
+            before, after, mid = p.get("before", []), p.get("after", []), p.get("mid")
+            if mid is None and len(v.items) != len(before) + len(after):
+                return False
+            if len(v.items) < len(before) + len(after):
+                return False
+            for q, x in zip(before, v.items[:len(before)]):
+                r = self.bind(q, x, env)
+                if r is not True:
+                    return r
+            for q, x in zip(after, v.items[len(v.items) - len(after):] if after else []):
+                r = self.bind(q, x, env)
+                if r is not True:
+                    return r
+            if mid is not None:
+                r = self.bind(mid, ListV(v.items[len(before):len(v.items) - len(after)]), env)
+                if r is not True:
+                    return r
+            return True
         if k == "PTuple":
             if not isinstance(v, tuple) or len(v) != len(p["pats"]):
                 if isinstance(v, tuple) and "dd" in p:
@@ -574,6 +611,8 @@ class Interp:
                     return True
                 if self.type_of(v) == self.type_of(Var(norm(p.get("path")))):
                     return False
+                if norm(v.path).rsplit("::", 1)[0] == norm(p.get("path")).rsplit("::", 1)[0] and (v.path in OK_PATHS + ERR_PATHS + SOME_PATHS + NONE_PATHS):
+                    return False  # another variant of the same std enum
                 return self._bind_through_deref(p, v, env)
             return None
         if k == "PTupleStruct":
@@ -668,7 +707,11 @@ class Interp:
         m = getattr(self, "ev_" + k, None)
         if m is None:
             return Unknown("unsupported node " + k)
-        return m(n, env)
+        r = m(n, env)
+        if self.trace_unknown and isinstance(r, Unknown) and not getattr(r, "loc", None):
+            r.loc = (self.fn_stack[-1] if self.fn_stack else "?", n.get("l"))
+            r.why = "%s @%s:%s" % (r.why, short(r.loc[0]), r.loc[1])
+        return r
 
     def ev_Lit(self, n, env):
         return self.lit_value(n)
@@ -791,7 +834,10 @@ class Interp:
         fields = {}
         for f in n["fields"]:
             fields[f["name"]] = self.ev(f["e"], env)
-        return Var(norm(n.get("path", "?")), fields=fields)
+        path = norm(n.get("path", "?"))
+        if path.endswith(">") and "<" in path and not path.startswith("<"):
+            path = path[:path.index("<")]  # `Self { .. }` inside a generic impl: utils::Spanned<T>
+        return Var(path, fields=fields)
 
     def ev_Field(self, n, env):
         v = self.ev(n["a"], env)
@@ -868,6 +914,7 @@ class Interp:
                 b = b.text() if all(isinstance(x, str) for x in b.pieces) else b
             if isinstance(a, (Sym, Leaf)) or isinstance(b, (Sym, Leaf)):
                 return Unknown("comparison with opaque value")
+            a, b = _plain(a), _plain(b)
             r = a == b
             return r if op == "==" else not r
         num = lambda x: isinstance(x, (int, float)) and not isinstance(x, bool)
@@ -920,6 +967,8 @@ class Interp:
             return Sym("uninit")
         if cn in ("std::vec::Vec::new", "alloc::vec::Vec::new", "std::vec::Vec::with_capacity"):
             return ListV([])
+        if cn in ("std::string::String::new", "alloc::string::String::new", "std::string::String::with_capacity"):
+            return Rope()
         if cn in ("std::convert::From::from", "std::convert::Into::into") and len(args) == 1:
             r = self.local_from(args[0], base_ty(self.F.ty(n) or ""))
             if r is not None:
@@ -1025,6 +1074,73 @@ class Interp:
                         return Unknown("collect of %r" % (x,))
                     out.append(x.args[0])
                 return Var(SOME_PATHS[0] if is_opt else OK_PATHS[0], [ListV(out)])
+        if isinstance(recv, Var) and (recv.path in SOME_PATHS or recv.path in NONE_PATHS or recv.path in OK_PATHS or recv.path in ERR_PATHS):
+            some, none, ok, err = recv.path in SOME_PATHS, recv.path in NONE_PATHS, recv.path in OK_PATHS, recv.path in ERR_PATHS
+            if not args:
+                if name in ("is_none", "is_some") and (some or none):
+                    return none if name == "is_none" else some
+                if name in ("is_err", "is_ok") and (ok or err):
+                    return err if name == "is_err" else ok
+                if name == "transpose" and none:
+                    return Var(OK_PATHS[0], [recv])
+                if name == "transpose" and some and isinstance(recv.args[0], Var) and recv.args[0].path in OK_PATHS:
+                    return Var(OK_PATHS[0], [Var(SOME_PATHS[0], [recv.args[0].args[0]])])
+                if name == "transpose" and some and isinstance(recv.args[0], Var) and recv.args[0].path in ERR_PATHS:
+                    return recv.args[0]
+                if name == "ok" and (ok or err):
+                    return Var(SOME_PATHS[0], [recv.args[0]]) if ok else Var(NONE_PATHS[0])
+            if len(args) == 1:
+                if name == "map" and (ok or err):
+                    if err:
+                        return recv
+                    r = self.apply(args[0], [recv.args[0]])
+                    return r if is_unknown(r) else Var(OK_PATHS[0], [r])
+                if name == "map_err" and (ok or err):
+                    if ok:
+                        return recv
+                    r = self.apply(args[0], [recv.args[0]])
+                    return r if is_unknown(r) else Var(ERR_PATHS[0], [r])
+                if name == "unwrap_or" and (ok or err):
+                    return recv.args[0] if ok else args[0]
+                if name == "unwrap_or_else" and (some or ok):
+                    return recv.args[0]
+                if name == "unwrap_or_else" and none:
+                    return self.apply(args[0], [])
+                if name == "unwrap_or_else" and err:
+                    return self.apply(args[0], [recv.args[0]])
+                if name in ("ok_or_else", "ok_or") and (some or none):
+                    if some:
+                        return Var(OK_PATHS[0], [recv.args[0]])
+                    r = self.apply(args[0], []) if name == "ok_or_else" else args[0]
+                    return r if is_unknown(r) else Var(ERR_PATHS[0], [r])
+                if name == "and_then" and (some or none or ok or err):
+                    if none or err:
+                        return recv
+                    return self.apply(args[0], [recv.args[0]])
+                if name == "expect" and (some or ok):
+                    return recv.args[0]
+        if name == "parse" and not args and isinstance(recv, (str, Rope)):
+            txt = recv if isinstance(recv, str) else (recv.text() if all(isinstance(x, str) for x in recv.pieces) else None)
+            ty = self.F.ty(n) or ""
+            mt = re.match(r"^(?:std|core)::result::Result<(.*), [^,]*>$", ty)
+            if txt is not None and mt:
+                target = mt.group(1).strip()
+                if target in ("f64", "f32"):
+                    if re.fullmatch(r"[+-]?(\d+\.?\d*([eE][+-]?\d+)?|\.\d+([eE][+-]?\d+)?|inf|infinity|nan)", txt, re.I):
+                        return Var(OK_PATHS[0], [float(txt)])
+                    return Var(ERR_PATHS[0], [Leaf("ParseFloatError")])
+                if target in ("i64", "i32", "u64", "u32", "usize", "isize", "u8", "i8", "u16", "i16"):
+                    if re.fullmatch(r"[+-]?\d+", txt) and not (target.startswith("u") and txt.startswith("-")):
+                        v = int(txt)
+                        bits = {"i64": 63, "i32": 31, "u64": 64, "u32": 32, "usize": 64, "isize": 63, "u8": 8, "i8": 7, "u16": 16, "i16": 15}[target]
+                        lo = 0 if target.startswith("u") else -(1 << bits)
+                        if lo <= v < (1 << bits):
+                            return Var(OK_PATHS[0], [v])
+                    return Var(ERR_PATHS[0], [Leaf("ParseIntError")])
+                fs = "<%s as std::str::FromStr>::from_str" % target
+                if self.F.fn(fs) is not None:
+                    return self.call_fn(fs, [txt])
+            return Unknown("parse::<%s> of %r" % (ty, recv))
         if name == "map" and len(args) == 1 and isinstance(recv, Var) and (recv.path in SOME_PATHS or recv.path in NONE_PATHS):
             if recv.path in NONE_PATHS:
                 return recv
@@ -1090,6 +1206,16 @@ class Interp:
                     return Unknown("predicate not boolean: %r" % (r,))
                 res.append(r)
             return all(res) if name == "all" else any(res)
+        if name == "remove" and isinstance(recv, ListV) and len(args) == 1 and isinstance(args[0], int) and 0 <= args[0] < len(recv.items):
+            return recv.items.pop(args[0])
+        if name in ("find", "position") and isinstance(recv, ListV) and len(args) == 1:
+            for i_, x in enumerate(recv.items):
+                r = self.apply(args[0], [x])
+                if not isinstance(r, bool):
+                    return Unknown("find predicate not boolean: %r" % (r,))
+                if r:
+                    return Var(SOME_PATHS[0], [x if name == "find" else i_])
+            return Var(NONE_PATHS[0])
         if name == "chain" and isinstance(recv, ListV) and len(args) == 1 and isinstance(args[0], ListV):
             return ListV(list(recv.items) + list(args[0].items))
         if name == "filter" and isinstance(recv, ListV) and len(args) == 1:
@@ -1155,6 +1281,32 @@ class Interp:
             return any(x == args[0] for x in recv.items)
         if name == "get" and isinstance(recv, ListV) and len(args) == 1 and isinstance(args[0], int):
             return Var(SOME_PATHS[0], [recv.items[args[0]]]) if 0 <= args[0] < len(recv.items) else Var(NONE_PATHS[0])
+        if name in ("split", "lines") and isinstance(recv, (str, Rope)):
+            txt = recv if isinstance(recv, str) else recv
+            sep = "\n" if name == "lines" else (args[0] if args else None)
+            if isinstance(sep, Rope):
+                sep = sep.text() if all(isinstance(x, str) for x in sep.pieces) else None
+            if isinstance(sep, str) and sep:
+                # split a rope without losing its opaque leaves: only literal pieces are cut
+                cur = Rope()
+                out = []
+                pieces = [txt] if isinstance(txt, str) else list(txt.pieces)
+                joined_literal = all(isinstance(x, str) for x in pieces)
+                if joined_literal:
+                    return ListV([Rope([x]) if x else Rope() for x in "".join(pieces).split(sep)])
+                for x in pieces:
+                    if isinstance(x, str):
+                        parts = x.split(sep)
+                        for i_, part in enumerate(parts):
+                            if i_:
+                                out.append(cur)
+                                cur = Rope()
+                            if part:
+                                cur.add(part)
+                    else:
+                        cur.add(x)
+                out.append(cur)
+                return ListV(out)
         if name == "contains" and isinstance(recv, (str, Rope)):
             s = recv if isinstance(recv, str) else (recv.text() if all(isinstance(x, str) for x in recv.pieces) else None)
             a = args[0]
@@ -1208,6 +1360,22 @@ class Interp:
     def ev_Index(self, n, env):
         a = self.ev(n["a"], env)
         i = self.ev(n["i"], env)
+        if isinstance(i, Var) and "ops::Range" in i.path:
+            kind = i.path.rsplit("::", 1)[-1]
+            seq = a.items if isinstance(a, ListV) else (a if isinstance(a, str) else (a.text() if isinstance(a, Rope) and all(isinstance(x, str) for x in a.pieces) else None))
+            if seq is not None:
+                lo = i.fields.get("start", 0)
+                hi = i.fields.get("end", len(seq))
+                if kind in ("RangeInclusive", "RangeToInclusive") and isinstance(hi, int):
+                    hi += 1
+                if isinstance(lo, int) and isinstance(hi, int) and 0 <= lo <= hi <= len(seq):
+                    if isinstance(a, ListV):
+                        return ListV(list(seq[lo:hi]))
+                    # Rust slices strings by byte offsets: only decided for ASCII text
+                    if all(ord(c) < 128 for c in seq):
+                        return seq[lo:hi]
+                    return Unknown("byte slice of non-ASCII text")
+                return Unknown("slice bounds")
         if isinstance(a, ListV) and isinstance(i, int):
             if 0 <= i < len(a.items):
                 return a.items[i]
